@@ -175,7 +175,7 @@ func init() {
 	registerProp(&propDef{ID: "C19", Rules: rulesC19, Floor: 40,
 		Expl: "Decoder discipline: every json.Unmarshal error is checked and refuses (including inside the custom UnmarshalJSON methods); every leaf of the raw decoder structs is uint64/string/bool (so encoding/json itself refuses negative, fractional, over-64-bit values and scalars for lists); every big.Int.SetString uses constant base 10 and its result is used unmerged; copy completeness (each Goldilocks/BN254 leaf of the decoded proof and verifier data depends on the raw field of the same name and on no other raw field — dependency analysis of the decoding entry points); position (every copy loop reachable from the decoders is a plain 0..len-1 loop over a complete list and accesses elements at its own index). Value equality for arbitrary documents is not decided; ReadCommonCircuitData's configuration copy is covered by the positive tests' exact expectations.",
 		Rule: "one obligation per Unmarshal site, raw type, SetString site, decoded leaf, copy loop"})
-	registerProp(&propDef{ID: "C02", Rules: rulesC02, Floor: 22,
+	registerProp(&propDef{ID: "C02", Rules: rulesC02, Floor: 28,
 		Expl: "Partial: (W3) every constant width that reaches the n-bit range primitive through the static call graph is a multiple of the commit checker's base width, the only configuration-dependent width is 64 − ProofOfWorkBits and it is a positive multiple of 16 for every common_circuit_data.json in the repository (else commit-based builds panic in the deferred drain); (dispatch) C06's obligations — no backend skips or mis-selects checks, so the verdict cannot depend on the backend through a dropped constraint; (W2, where listed) honest-fit of reduction sites by interval evaluation. Acceptance of concrete proofs is not decided.",
 		Rule: "one obligation per width reaching the range primitive, per circuit description, per C06 rule"})
 	registerProp(&propDef{ID: "C10", Rules: rulesC10, Floor: 3,
